@@ -8,6 +8,7 @@ import (
 	"io"
 	"net/http"
 	"net/http/httptest"
+	"net/url"
 	"reflect"
 	"strings"
 	"testing"
@@ -198,6 +199,35 @@ func c14String(r *fw.Run, key, s string) {
 		err = w2.Scan(buf2)
 		c14Judge(r, key, "Scan([]byte)", "type", desc, s, true, w2, err, true)
 		c14Clobber(r, key, "Scan([]byte)", desc, buf2, s, w2)
+	}
+	// spellings of the same string that only a decoder would turn back into it (JSON quoting, percent
+	// escapes): Scan and the header route take their input as it is - whatever they make of it, a
+	// set value has no line break, and an input without a line break is taken over verbatim
+	if hasNewline(s) {
+		var spellings []string
+		spellings = append(spellings, jsonEncodings(s)...)
+		pe := strings.NewReplacer("\r", "%0D", "\n", "%0A", "%", "%25").Replace(s)
+		spellings = append(spellings, pe, strings.ToLower(pe), url.QueryEscape(s), url.PathEscape(s))
+		for _, sp := range spellings {
+			if hasNewline(sp) {
+				continue
+			}
+			sd := fw.Q(fw.Trunc(sp, 80))
+			v := sse.ID("old")
+			err := v.Scan(sp)
+			c14Judge(r, key, "Scan(string)", "id", sd, sp, true, v, err, true)
+			w := sse.Type("old")
+			err = w.Scan([]byte(sp))
+			c14Judge(r, key, "Scan([]byte)", "type", sd, sp, true, w, err, true)
+			req := httptest.NewRequest(http.MethodGet, "http://verif.invalid/", http.NoBody)
+			req.Header["Last-Event-Id"] = []string{sp}
+			if sess, uerr := sse.Upgrade(httptest.NewRecorder(), req); uerr == nil {
+				c14Judge(r, key, "Upgrade", "id", "header="+sd, sp, true, sess.LastEventID, nil, false)
+				if sp != "" && (!sess.LastEventID.IsSet() || sess.LastEventID.String() != sp) {
+					r.Violation(key, []string{"upgrade_header_lost"}, map[string]any{"header": sd, "got": fw.Q(sess.LastEventID.String())}, "C14: single-line Last-Event-Id header %s not taken over verbatim by Upgrade", sd)
+				}
+			}
+		}
 	}
 	// every other decoder the types may offer: any exported method of *EventID / *EventType that takes
 	// one []byte or string and returns an error (or nothing) is a construction route as well
